@@ -37,6 +37,18 @@ CHECKS = {
             "For every violation of every recorded lint run: line/col in the file, serialised offsets agree with line/col (start, end and each fix edit), the dict agrees with the reported position, violations anchored on source code point at that code's first character and text; all five machine-readable formats carry the same numbers as the API.",
             "Exploration over fixtures of all dialects, mutants, templated inputs and variants. The anchor clause applies in lint mode to non-meta, non-empty, literal anchors only. Known finding: line-only violations report column 0.",
             "DESIGN.md §5 C23"),
+    "C30": (MC, "TLA+ contract + transcription of generate_source_patches filter -> merge_source_patches -> _slice_source_file_using_patches -> _build_up_fixed_source_string (spec/Patches.tla), TLC exhaustive; spec->code replay of every enumerated patch set through the real functions; code->spec validation of the patch sets of real fix runs (spec/PatchesTrace.tla)",
+            "TLC shows the transcribed pipeline applies a pairwise disjoint subset of the offered edits exactly once and loses no isolated edit, and that the filter establishes the slicer's precondition; ~137k enumerated cases are replayed into the real functions (allowed outputs computed in TLA+); patch lists, slice buffers and outputs of real fix runs on templated rule cases, fixtures and generated templates are validated.",
+            "Scope: 3 source cells, <= 3 patches, <= 1 source-only slice, two variant buffers (quick); larger and sampled scopes in thorough. Trusted: concretiser (FixPatch builders), recorder wrappers. Notes: notes/C30.md.",
+            "DESIGN.md §5 C30"),
+    "C10": (MC, "Patches.tla contract TemplateCellsPreserved / Safe (typed source cells) model-checked with the transcribed pipeline; spec->code replay; code->spec validation (PatchesTrace) of fix runs over templated inputs comparing the sequence of non-literal raw slices before and after",
+            "TLC shows the filter keeps only template-safe edits and the pipeline preserves every tag; enumerated cases are replayed into the real filter/merge/slice/build; fix runs on templated rule cases, templater fixtures and generated Jinja/placeholder/python templates are validated: same tags, same order, same text (whitespace inside a tag's delimiters only when JJ01 is selected), and the fixed source still templates.",
+            "Scope: 3-4 cells x 4 slice types x <= 2 patches (quick). Trusted: re-templating of the fixed source with the same config; InnerTrim tolerance for JJ01. Notes: notes/C10.md.",
+            "DESIGN.md §5 C10"),
+    "C11": (EX, "byte-level contract in spec/PatchesTrace.tla (Load/Fixes/Patches/Write events over decoding units) + Patches.tla OnlyPatchedRangesDiffer model-checked; recorded fix runs through Linter.lint_paths(apply_fixes) and the CLI over encodings x newlines x undecodable bytes",
+            "Generated files in ascii/utf-8/utf-8-sig/utf-16 LE,BE/latin-1 with LF/CRLF/CR/mixed newlines, undecodable bytes and trailing-newline variants are fixed for real; TLC validates that text and bytes outside the ranges the applied fixes edit come back unchanged (undecodable bytes as the same bytes), the BOM is kept, and a file without effective change keeps inode, mtime and bytes.",
+            "Exploration; newline normalisation is applied to both sides before comparison as the statement says. Known finding: undecodable bytes are written back as escape text (F14). Notes: notes/C11.md.",
+            "DESIGN.md §5 C11"),
     "C20": (MC, "TLA+ contract + transcription of IgnoreMask (spec/Noqa.tla), TLC exhaustive; spec->code replay of every enumerated case; code->spec trace validation of generated files (NoqaTrace)",
             "TLC shows the transcribed masking algorithm refines the noqa contract for every directive list/violation set in scope, every such case is replayed into the real IgnoreMask, and recorded lint runs of generated files (all reference forms, tree and source-fallback masks, disable_noqa) are validated against the same contract.",
             "Scope: 3 lines, <=2 (quick) / <=3 (thorough) directives, <=2 violations, codes {A,B,PRS}. Trusted: object builders, file concretiser, code mapping LT01/CP01/PRS. `used` of enable directives and of several directives hiding the same violation is left unconstrained (ambiguous in the statement).",
